@@ -625,7 +625,7 @@ Definition MAGIC : bytes := [202; 254; 186; 190]%N.
 Record class_aux := { a_codes : list code_aux; a_bsm : list bsment; a_pool : pool }.
 
 Definition write_class_aux (t : cclass) : out (bytes * class_aux) :=
-  let body : W (bytes * list code_aux) :=
+  let body : W (bytes * list code_aux * list bsment) :=
     this <- put_class (k_name t) ;;
     super <- put_opt put_class (k_super t) ;;
     ifs <- wslice16 (fun x => idx16 (put_class x)) (k_interfaces t) ;;
@@ -652,18 +652,19 @@ Definition write_class_aux (t : cclass) : out (bytes * class_aux) :=
       oattr (k_nest_members t) (fun l => wattr s_NestMembers (wslice16 (fun x => idx16 (put_class x)) l)) ++
       oattr (k_permitted t) (fun l => wattr s_PermittedSubclasses (wslice16 (fun x => idx16 (put_class x)) l)) ++
       nattr (k_record t) (fun l => wattr s_Record (wslice16 write_record_component l))) ;;
+    tbl <- (fun s => OK (w_bsm s, s)) ;;          (* pool.bootstrap_methods.take() *)
     bsm <- seqW w_bootstrap ;;
     unk <- mapW wunknown (k_unknown t) ;;
     let bsm' := filter (fun b => negb (match b with [] => true | _ => false end)) bsm in
     let all := pre ++ bsm' ++ unk in
     c <- w_u16len (zlen all) ;;
     ret (be16 (k_access t) ++ be16 this ++ be16 super ++ ifs ++ fields ++ nm ++ concat (map fst methods) ++ c ++ concat all,
-         map snd methods) in
+         map snd methods, tbl) in
   match body wst_new with
-  | OK ((rest, codes), s) =>
+  | OK ((rest, codes, tbl), s) =>
       match pool_bytes (w_pool s) with
       | Ok pb => OK (MAGIC ++ be16 (k_minor t) ++ be16 (k_major t) ++ pb ++ rest,
-                     {| a_codes := codes; a_bsm := w_bsm s; a_pool := w_pool s |})
+                     {| a_codes := codes; a_bsm := tbl; a_pool := w_pool s |})
       | Err => ERR
       end
   | ERR => ERR
